@@ -735,6 +735,12 @@ func main() {
 	if poolJobs >= 4*len(headers) {
 		base := 3 * (poolJobs / len(headers))
 		jobPool[base] = part{"job", []string{"  craftmi:", "    runs-on: ubuntu-latest", "    strategy:", "      matrix: ${{ inputs }}", "    steps:", "      - run: echo ${{ matrix.flag }}"}, "job-matrix-inputs"}
+		// a matrix made only of an include list whose FIRST element is a shared object type (inputs /
+		// github) followed by an element that adds a key, and jobs that read that key from the context
+		jobPool[base+2] = part{"job", []string{"  craftinc:", "    runs-on: ubuntu-latest", "    strategy:", "      matrix:", "        include:", "          - ${{ inputs }}", "          - extra: 1", "    steps:", "      - run: echo ${{ matrix.extra }} ${{ matrix.flag }}"}, "job-include-inputs"}
+		jobPool[base+3] = part{"job", []string{"  craftrd2:", "    runs-on: ubuntu-latest", "    steps:", "      - run: echo ${{ inputs.extra }} ${{ github.extra }} ${{ inputs.flag }}"}, "job-reads-extra"}
+		jobPool[base+4] = part{"job", []string{"  craftincg:", "    runs-on: ubuntu-latest", "    strategy:", "      matrix:", "        include:", "          - ${{ github }}", "          - extra: 1", "          - ${{ inputs }}", "          - more: x", "    steps:", "      - run: echo ${{ matrix.extra }} ${{ matrix.more }}"}, "job-include-github"}
+		jobPool[base+5] = part{"job", []string{"  craftrd3:", "    runs-on: ubuntu-latest", "    steps:", "      - run: echo ${{ github.more }} ${{ inputs.more }} ${{ github.extra }}"}, "job-reads-more"}
 		jobPool[base+1] = part{"job", []string{"  craftrd:", "    runs-on: ubuntu-latest", "    steps:", "      - run: echo ${{ inputs.exclude }} ${{ inputs.flag }}", "        env:", "          E: ${{ inputs.include }}"}, "job-reads-inputs"}
 	}
 	var jprefixes []string
